@@ -28,6 +28,7 @@ type stCase struct {
 	Construct string `json:"construct,omitempty"`
 	What      string `json:"what,omitempty"`
 	ExpectHit bool   `json:"expect_hit"`
+	Silent    bool   `json:"must_stay_silent,omitempty"` // behaviour-preserving refactoring: any alarm is a false alarm
 }
 
 type stResult struct {
@@ -75,7 +76,23 @@ func loadCases(verif string) ([]stCase, error) {
 		}
 		out = append(out, stCase{ID: "seeded-" + meta.ID, Kind: "patch", Patch: filepath.Join(filepath.Dir(m), "patch.diff"), Property: meta.Property, ExpectHit: meta.Own, What: "independently seeded change " + meta.ID})
 	}
+	// behaviour-preserving refactorings: negative controls
+	refs, _ := filepath.Glob(filepath.Join(verif, "refactors", "*", "patch.diff"))
+	sort.Strings(refs)
+	for _, r := range refs {
+		id := filepath.Base(filepath.Dir(r))
+		if known := expectedRefactorAlarms[id]; known != "" {
+			continue // documented limitation, see DESIGN.md §7
+		}
+		out = append(out, stCase{ID: "refactor-" + id, Kind: "patch", Patch: r, Property: "*", Silent: true, What: "behaviour-preserving refactoring " + id})
+	}
 	return out, nil
+}
+
+// expectedRefactorAlarms lists refactorings on which a check is known to
+// report "undecided" by design.
+var expectedRefactorAlarms = map[string]string{
+	"R04-2": "PAN-1: the extracted helper indexes a slice by the range index of a sibling slice; the compiler can no longer prove the bound and no table row covers the new access",
 }
 
 func runCase(c stCase, repo, verif, self string) stResult {
@@ -145,6 +162,15 @@ func runCase(c stCase, repo, verif, self string) stResult {
 			}
 		}
 	}
+	if c.Silent {
+		if len(res.Fired) == 0 {
+			res.Status = "silent"
+		} else {
+			res.Status = "false-alarm"
+			res.Detail = strings.Join(res.Fired, "; ")
+		}
+		return res
+	}
 	if hit {
 		res.Status = "killed"
 	} else {
@@ -179,10 +205,23 @@ func RunSelftest(prop, repo, verif string, par int) ([]stResult, error) {
 	}
 	var sel []stCase
 	for _, c := range cases {
-		if prop == "" || c.Property == prop {
+		switch {
+		case c.Property == "*" && prop != "":
+			c.Property = prop
+			sel = append(sel, c)
+		case c.Property == "*":
+			// without a property: run the refactoring against every property
+			for p := range PropRules {
+				cc := c
+				cc.Property = p
+				cc.ID = c.ID + "@" + p
+				sel = append(sel, cc)
+			}
+		case prop == "" || c.Property == prop:
 			sel = append(sel, c)
 		}
 	}
+	sort.SliceStable(sel, func(i, j int) bool { return sel[i].ID < sel[j].ID })
 	res := make([]stResult, len(sel))
 	sem := make(chan struct{}, par)
 	var wg sync.WaitGroup
@@ -201,9 +240,15 @@ func RunSelftest(prop, repo, verif string, par int) ([]stResult, error) {
 
 func summarise(res []stResult) map[string]any {
 	killed, survived, skipped, gaps := 0, 0, 0, 0
-	var surv, skip, gap []string
+	silent, falseAlarms := 0, 0
+	var surv, skip, gap, fa []string
 	for _, r := range res {
 		switch {
+		case r.Status == "silent":
+			silent++
+		case r.Status == "false-alarm":
+			falseAlarms++
+			fa = append(fa, r.Case.ID+": "+r.Detail)
 		case r.Status == "killed":
 			killed++
 		case r.Status == "skipped":
@@ -220,6 +265,7 @@ func summarise(res []stResult) map[string]any {
 	return map[string]any{
 		"variants": len(res), "killed": killed, "survived_unexpectedly": survived, "known_gaps": gaps, "skipped": skipped,
 		"survivors": surv, "known_gap_ids": gap, "skipped_detail": skip,
+		"refactorings_silent": silent, "refactorings_false_alarm": falseAlarms, "false_alarm_detail": fa,
 	}
 }
 
@@ -245,7 +291,7 @@ func mainSelftest(args []string) int {
 	b, _ := json.MarshalIndent(summarise(res), "", " ")
 	fmt.Println(string(b))
 	s := summarise(res)
-	if s["survived_unexpectedly"].(int) > 0 {
+	if s["survived_unexpectedly"].(int) > 0 || s["refactorings_false_alarm"].(int) > 0 {
 		return 1
 	}
 	return 0
